@@ -8,6 +8,7 @@ package main
 
 import (
 	"bufio"
+	"bytes"
 	"encoding/json"
 	"fmt"
 	"os"
@@ -24,8 +25,16 @@ func main() {
 		line, err := in.ReadBytes('\n')
 		if len(line) > 1 {
 			var c blocklib.ParCase
+			var cc blocklib.ConcCase
 			verdict := ""
-			if e := json.Unmarshal(line, &c); e != nil {
+			if bytes.HasPrefix(line, []byte("CONC ")) {
+				// transactions (and small blocks) decoded and hashed by several goroutines at once
+				if e := json.Unmarshal(line[5:], &cc); e != nil {
+					verdict = "harness: bad case: " + e.Error()
+				} else if _, e := blocklib.RunConcurrent(cc); e != nil {
+					verdict = e.Error()
+				}
+			} else if e := json.Unmarshal(line, &c); e != nil {
 				verdict = "harness: bad case: " + e.Error()
 			} else {
 				b := blocklib.Build(c, c.RaceNTx)
